@@ -10,6 +10,11 @@ func main() {
 	lib.Main(h.Exec, func(c *lib.Ctx) {
 		root := c.Rand
 		h.GenFetcher(c)
+		if h.PeerSawOtherSource > 0 {
+			c.Count("observed:key-exchange-host-differs-from-client-source-address")
+		} else {
+			c.NotExecuted("no exchange in which the key-exchange host differed from the client's source address (loopback aliases unavailable?)")
+		}
 		c.Rand = root
 		h.GenServerMsg(c)
 		c.Rand = root
